@@ -340,7 +340,7 @@ def a_index(rng: Any, s: Any) -> Any:
     return _mk_index(rng, idx, s)
 
 
-INDEX_WITHOUT_OUT_STRUCTURE = [False]  # switched on by workloads once construction without is usable
+INDEX_WITHOUT_OUT_STRUCTURE = [True]  # construction without out_structure works since the fix of D1
 
 
 def _mk_index(rng: Any, idx: tuple[Any, ...], s: Any) -> Any:
